@@ -78,6 +78,13 @@ section
 variable {α : Type} [Add α] [Sub α] [Mul α] [Div α] [LT α] [LE α] [DecidableLT α] [DecidableLE α]
   [BEq α] [Lit α]
 
+/-- the configuration searched forwards (`Direction::Forward`) -/
+def Config.fwd (c : Config α) : Config α := { c with reverse := false }
+
+/-- the configuration searched backwards (`Direction::Reverse`), with the great-circle table towards
+the reverse run's target -/
+def Config.rev (c : Config α) (gcRev : List α) : Config α := { c with reverse := true, gc := gcRev }
+
 /-! ### similarity -/
 
 /-- `iter().sum::<f64>()` in list order -/
@@ -255,8 +262,8 @@ by the forward run), `gcRev` the one towards the source (reverse run); the direc
 def singleVia (c : Config α) (gcRev : List α) (sim : List Nat → List Nat → Except ErrKind Bool)
     (term : KspTerm) (source target k : Nat) (fwdSched revSched pops : List Nat) :
     Except ErrKind (AlgResult α) :=
-  let cf : Config α := { c with reverse := false }
-  let cr : Config α := { c with reverse := true, gc := gcRev }
+  let cf : Config α := c.fwd
+  let cr : Config α := c.rev gcRev
   match runVertexOriented cf.inst source (some target) fwdSched with
   | .error e => .error e
   | .ok fres =>
